@@ -286,38 +286,36 @@ def lexer_string_rules():
 
 
 def reader_escape_table(prog):
-    yl = prog.func_opt("yylex")
-    if yl is None:
-        raise Broken("anchor yylex vanished")
-    sws = []
-    for x in walk(yl["body"]):
-        if x.get("k") == "switch":
-            c = unwrap(x["c"])
-            # yyget_text(yyscanner)[1]
-            if isinstance(c, dict) and c.get("k") == "idx" and intval(c["i"]) == 1 and \
-               isinstance(unwrap(c["b"]), dict) and unwrap(c["b"]).get("fn") == "yyget_text":
-                sws.append(x)
-    if len(sws) != 1:
-        raise Broken("escape switch on yyget_text()[1] not found exactly once in yylex (%d)" % len(sws))
+    """what the scanner appends for `\\c` inside a (non-raw) string literal, for every byte c: the action of the single-character
+    escape rule interpreted from source (helpers and locals are transparent)"""
+    import scanner
+    from cxxobj import StdStr, OutOfBounds
+    conds, rs = scanner.rules()
+    cand = [r for r in rs if r[0] == "STRING" and r[1].startswith('"\\\\"(.')]
+    if len(cand) != 1:
+        raise Broken("single-character escape rule of <STRING> not found exactly once in lexer.ll (%d)" % len(cand))
+    rule = cand[0]
+    subs = []
+    ev = scanner.make_evaluator(prog, subs)
     table = {}
-    default_self = False
-    for labels, stmts in switch_groups(sws[0]):
-        app = [c for s in stmts for c in calls(s) if c.get("op") == "+=" ]
-        for l in labels:
-            if l == "default":
-                # str += text[1]
-                default_self = any(isinstance(unwrap(a["a"][1]), dict) and unwrap(a["a"][1]).get("k") == "idx" for a in app)
-                continue
-            c = _chr_of(l)
-            if c is None:
-                raise Broken("non-constant case label in the lexer's escape switch")
-            if not app:
-                table[c] = None      # ignored (line continuation)
-            else:
-                b = _chr_of(app[0]["a"][1])
-                if b is None:
-                    raise Broken("escape case %r appends a non-constant" % chr(c))
-                table[c] = b
+    default_self = True
+    for c in range(256):
+        f = scanner.new_fmtlit(prog, ev)
+        try:
+            r = scanner.run(prog, ev, rule, bytes([0x5c, c]), f, conds)
+        except OutOfBounds as x:
+            raise Broken("the escape action cannot be evaluated for byte %d: %s" % (c, x))
+        if r["threw"] or r["token"] is not None or r["state"] is not None or subs:
+            raise Broken("the escape action does something else than appending for byte %d (unmodelled)" % c)
+        out = f.str.b
+        if len(out) == 0:
+            table[c] = None          # swallowed (line continuation)
+        elif len(out) == 1 and out[0] == c:
+            pass                     # stands for itself
+        elif len(out) == 1:
+            table[c] = out[0]
+        else:
+            raise Broken("escape `\\%s` appends %d bytes" % (chr(c), len(out)))
     pats = lexer_string_rules()
     has_oct = any(p.startswith('"\\\\"[0-3]') for p in pats)
     has_hex = any(p.startswith('"\\\\x"{HEX}{HEX}') for p in pats)
@@ -325,9 +323,9 @@ def reader_escape_table(prog):
     for p in pats:
         m = re.match(r'"((?:\\.|[^"\\])+)"', p)
         if m:
-            s = m.group(1).replace('\\\\', '\\').replace('\\"', '"')
-            specials.add(s[0])
-    return table, default_self, has_oct, has_hex, specials, sws[0]["l"]
+            s_ = m.group(1).replace('\\\\', '\\').replace('\\"', '"')
+            specials.add(s_[0])
+    return table, default_self, has_oct, has_hex, specials, "lexer.ll:%d" % rule[2]
 
 
 def z2(prog):
